@@ -34,6 +34,7 @@ PROPS = {
 }
 
 RETRY_STREAM = {"name": "retry", "quick": 1500, "thorough": 60000}
+SCHED_STREAM = {"name": "sched", "quick": 1, "thorough": 1}
 RETRY_RULE = ("retry: one request through the real proxy (in-process, loopback) against a scripted fakecass cluster: 1-4 hosts x 1-2 connections, "
               "every start offset, 15 request kinds (QUERY/EXECUTE/BATCH/graph x idempotent/non-idempotent/unparseable/unknown id/counter, ground truth attached by construction), "
               "hosts down, per-attempt outcomes drawn from every error kind, write types, read-timeout shapes, connection drop, UNPREPARED with each re-prepare outcome "
@@ -54,9 +55,9 @@ PROPS["C04"] = {
 PROPS["C05"] = {
     "module": "CqlVerif.Props.C05",
     "gens": ["policy"],
-    "streams": [RETRY_STREAM],
-    "claim": "Lean theorems over the generated policy (closed forms for all retry counts and field values) and over Model/Retry: attempts_bounded, failover_success, terminates_partial (+ spin_witness for the excluded point); tied to the code by the policy translator and the e2e retry stream (ordered host/outcome traces vs the model)",
-    "note": "trusted: Lean kernel, translator, hand-written model + e2e correspondence; leastBusyConn tie-breaking is compared but not specified; terminates only under the stated stability proviso (open finding otherwise)",
+    "streams": [RETRY_STREAM, SCHED_STREAM],
+    "claim": "Lean theorems over the generated policy (closed forms for all retry counts and field values) and over Model/Retry: attempts_bounded, failover_success, terminates; tied to the code by the policy translator and the e2e retry stream (ordered host/outcome traces vs the model)",
+    "note": "trusted: Lean kernel, translator, hand-written model + e2e correspondence; leastBusyConn tie-breaking is compared but not specified",
     "rule": RETRY_RULE,
     "trusted_base": [KERNEL, DRIVER, HARNESS, "Gen/RetryPolicy.lean regenerated by the boolean-function translator from proxy/retrypolicy.go",
                      "Model/Retry.lean hand-written; fakecass backend built on the reference go-cassandra-native-protocol codec"],
@@ -75,10 +76,10 @@ CORE_TB = [KERNEL, DRIVER, HARNESS, "Model/Core.lean hand-written (atomic handle
 PROPS["C01"] = {
     "module": "CqlVerif.Props.C01",
     "gens": ["policy"],
-    "streams": [CORE_STREAM, STORM_STREAM, RETRY_STREAM],
+    "streams": [CORE_STREAM, STORM_STREAM, RETRY_STREAM, SCHED_STREAM],
     "shrink": False,
-    "claim": "Lean theorems replies_le_one and reply_on_own_stream over Model/Core for every interleaving of handler steps, any number of clients/requests/hosts/connections/streams and every fault sequence (induction over arbitrary action lists); single-request liveness no_spin_partial; tied to the code by the core (differential) and storm (oracle) e2e streams",
-    "note": "safety half proved outright; 'never none' is proved only for the single-request life-cycle under the stated proviso (open finding: same-host resend spin) and otherwise checked by the ExactlyOne oracle on e2e storms; intra-handler interleavings rest on lock facts, not on a mechanised reduction theorem",
+    "claim": "Lean theorems replies_le_one and reply_on_own_stream over Model/Core for every interleaving of handler steps, any number of clients/requests/hosts/connections/streams and every fault sequence (induction over arbitrary action lists); single-request liveness answered_when_attempts_answered; tied to the code by the core (differential) and storm (oracle) e2e streams",
+    "note": "safety half proved outright; 'never none' is proved for the single-request life-cycle (Model/Retry) and otherwise checked by the ExactlyOne oracle on e2e storms; intra-handler interleavings rest on lock facts, not on a mechanised reduction theorem",
     "rule": CORE_RULE, "trusted_base": CORE_TB,
     "assumptions": ["the client stays connected", "every backend attempt is answered or its connection dropped"],
 }
